@@ -260,4 +260,7 @@ def run(ck, tier):
     from ..share import import_findings as _imp
     ck.rule('R9', 'the echo fields of a write response carry the request values, 0 included: a response constructor does not replace a 0 argument by a default (shared with C01 R6)')
     _imp(ck, 'C01', 'R9', ('R6',), 'the normal response does not echo what the request carried', construct_contains=('Response',))
+    from .. import ownership as _own2
+    ck.rule('R10', 'no unsound memoisation (a caching decorator on a method, or on a function that returns a mutable container) in the modules this property rests on')
+    ck.guard(_own2.rule_no_unsafe_memo, ck, cx, 'R10', ('pymodbus.datastore.context', 'pymodbus.datastore.store'), 'a read returns a value cached before the latest write')
     return cx.idx
